@@ -366,8 +366,9 @@ class World:
             used = sorted({{"http": e["host"], "s3": 2, "dcor": 3}.get(e["kind"], e["host"]) for e in self.edges
                            if e["src"] == root and e["kind"] in ("http", "s3", "dcor")})
             host = r.choice(used) if used and r.random() < 0.75 else r.randrange(4)
-            return {"k": "weather", "host": host, "state": r.choice(["refuse", "down", "dnsfail", "flaky"]), "node": r.randrange(6),
-                    "fseed": r.randrange(1 << 20)}
+            dsts = sorted({e["dst"] for e in self.edges if e["src"] == root and e["kind"] in ("http", "s3", "dcor")})
+            return {"k": "weather", "host": host, "state": r.choice(["refuse", "down", "dnsfail", "flaky", "404", "404", "403"]),
+                    "node": r.choice(dsts) if dsts else r.randrange(6), "fseed": r.randrange(1 << 20)}
         if self.k["klass"] == "weather" and hist[-2:] == ["verify", "weather"] and r.random() < 0.7:
             return r.choice([{"k": "listing", "what": "features_basin"}, {"k": "contains", "feat": r.choice(FEATS)},
                              {"k": "read", "feat": r.choice(FEATS), "how": "all", "i": 0}])
